@@ -434,6 +434,16 @@ class ActionLink(Action):
                     if target_prefix in nodes and not graph.has_edge(target_prefix, target):
                         graph.add_edge(target, target_prefix)
 
+            # A source nested in another component can only be read while that component is not yet instantiated
+            for action in actions:
+                target = re.sub(r"\.init_args$", "", split_key_leaf(action.target[0])[0])
+                for _, source_action in action.source:
+                    parts = split_key(source_action.dest)
+                    for num in range(1, len(parts)):
+                        source_prefix = ".".join(parts[:num])
+                        if source_prefix in nodes and source_prefix != target and not graph.has_edge(source_prefix, target):
+                            graph.add_edge(target, source_prefix)
+
             return graph.get_topological_order()
         return []
 
